@@ -20,10 +20,10 @@ RUNS = [([0.125, 'sec'], [2.0, 'sec']), ([0.5, 'sec'], [3000.0, 'ms'])]
 
 
 def bounds(tier):
-    return {'models': MODELS if tier != 'quick' else MODELS[:3], 'runs': RUNS, 'operators': list(OPS)}
+    return {'models': MODELS if tier != 'quick' else MODELS[:4], 'runs': RUNS, 'operators': list(OPS)}
 
 
-MODELS = ['osc', 'locking', 'geared', 'worm']
+MODELS = ['osc', 'locking', 'locking-rpm', 'geared', 'worm']
 
 
 def model_spec(name):
@@ -37,6 +37,12 @@ def model_spec(name):
                            init={'theta': [10.0, 'deg'], 'w': [-30.0, 'rpm']})
         st = menu.stall_at_output(spec)
         spec['load'] = ['switch', 0.6 * st, 0.9]
+    elif name == 'locking-rpm':
+        # as 'locking', with the initial conditions written in deg / rpm: once held, speeds become 0 rad/s objects
+        spec = menu.assign([('J', 'Wg'), ('W', 'Ww')], motor=menu.MOTOR_CUR, locking=True,
+                           init={'theta': [0.0, 'deg'], 'w': [0.0, 'rpm']})
+        st = menu.stall_at_output(spec)
+        spec['load'] = ['switch', 1.9 * st, 0.8]
     elif name == 'locking':
         # self-locking chain with a load that rises above stall: speeds are clamped mid-run
         spec = menu.assign([('J', 'Wg'), ('W', 'Ww')], motor=menu.MOTOR_CUR, locking=True,
@@ -53,7 +59,7 @@ def model_spec(name):
 
 def shards(tier):
     out = []
-    models = MODELS if tier != 'quick' else MODELS[:3]
+    models = MODELS if tier != 'quick' else MODELS[:4]
     for mname in models:
         spec = model_spec(mname)
         n = len(spec['elements'])
